@@ -171,7 +171,7 @@ func checkEst(c estCase) (o pbt.Outcome, err error) {
 			}
 			switch en := ref.E[i][j]; en.Kind {
 			case refdist.Defined:
-				if math.IsNaN(d) || !refdist.LibTol.Close(d, en.Value) {
+				if math.IsNaN(d) || !refdist.LibTol.Wider(en.RelExtra).Close(d, en.Value) {
 					return o, fmt.Errorf("Distance(%d,%d) = %.15g, the estimator gives %.15g", i, j, d, en.Value)
 				}
 			case refdist.Undefined:
